@@ -1,6 +1,7 @@
 """C01 - tag reads return exactly what the controller holds."""
 from vlib.bench import ScenarioDead
 from vlib import common, logixreq
+from vlib import refproject as rpj
 from vlib.logixbench import CONFIGS, LogixScenario
 
 LEVEL = "exploration"
@@ -11,7 +12,8 @@ RULE = ("random controller projects (atomic tags of every Logix type, 1-3 dim ar
         "on hidden hosts, string types of capacity 1..4100, program-scoped tags, aliases, module tags) x random memory images x controller "
         "configurations {fw 16,17,18,20,21,24,32, Micro800 at fw 12 / 21 / 22 (empty route only)} x {4000-byte, 500-byte connection} x target "
         "reply policy {full, random, 1-8 byte fragments}; every fourth project is read through a second driver (init_tags=False) that shares the "
-        "first one's tag list; each read() call carries 1-25 requests in the documented syntax (base, [i..], {n}, [i]{n}, member paths through arrays of "
+        "first one's tag list; every fifth project a second driver in the same process talks to ANOTHER controller (other project, other firmware) holding tags of "
+        "the same names with other types / instance ids, calls interleaved - each driver answers for its own controller; each read() call carries 1-25 requests in the documented syntax (base, [i..], {n}, [i]{n}, member paths through arrays of "
         "structs, .bit, BOOL-array [i] / {n} / [i]{n}, BOOL members, strings, whole structs, duplicates) with element counts aimed at the "
         "byte windows around the connection size; every returned Tag is compared with the reference interpretation of the target's memory "
         "(value, type string, name, truthiness). distinct = (request shape, element type kind, transport path taken per target log, config) evaluated")
@@ -132,6 +134,40 @@ def run(ctx):
                 if pi == 0 and ci < 3:
                     res.sample({"config": sc.label, "requests": [r.text for r in reqs][:4], "result": repr(out)[:300], "paths": pc})
             sc.dev.finish_transfers()
+            # ---- two controllers in one process: a second driver talks to ANOTHER controller (other project, other firmware) that has
+            # tags of the same names with other types / instance ids; calls are interleaved.  Each driver answers for its own controller:
+            # nothing a driver learnt may live in state shared by the class, the module or the process.
+            if pi % 5 == 3 and not sc.micro:
+                cfgB = rng.choice([c for c in CONFIGS if not c[2] and c[0] != cfg[0]])
+                prjB = rpj.generate_project(rng, "small", fw=cfgB[1], micro800=False)
+                shared = []
+                plain = [t for t in sc.prj.user_tags(with_programs=False) if t.kind == "user" and ":" not in t.name]
+                for t in rng.sample(plain, min(4, len(plain))):
+                    if prjB.find(t.name) is None:
+                        shared.append(rpj.add_array_tag(prjB, rng, t.name, rng.choice(["INT", "REAL", "LINT", "DINT"]), rng.choice([3, 10, 50])))
+                scB = LogixScenario(rng, config=cfgB, project=prjB, bench=sc.b, host="192.168.1.237")
+                res.count("two-controller-scenarios")
+                if not scB.ok():
+                    res.ev()
+                    res.violation("two-plc:open-failed", f"a second LogixDriver for another controller ({scB.label}) failed to open while the first ({sc.label}) is open: {scB.opened!r:.200}", None)
+                else:
+                    for ci in range(16):
+                        cur = rng.choice([sc, scB])
+                        reqs = [logixreq.gen_request(cur.prj, rng, cur.conn_size) for _ in range(rng.choice([1, 2, 4]))]
+                        for t in shared:   # the names both controllers know
+                            if rng.random() < 0.6:
+                                tg = cur.prj.find(t.name)
+                                if tg is not None:
+                                    reqs.append(logixreq.gen_request(cur.prj, rng, cur.conn_size, tag=tg))
+                        st, out = cur.b.call("read", cur.drv.read, *[r.text for r in reqs])
+                        res.seen("two-plc", cur is scB, len(reqs))
+                        if st != "ok":
+                            res.ev()
+                            res.violation(f"two-plc:read-raises:{type(out).__name__}", f"read({[r.text for r in reqs]!r:.200}) raised {out!r:.200} ({cur.label}, second controller {scB.label})", None)
+                            continue
+                        check_read_call(res, cur, reqs, out, key_prefix="two-plc:")
+                    scB.dev.finish_transfers()
+                scB.close()
             sc.close()
         except ScenarioDead:
             continue
